@@ -2,7 +2,7 @@
 //!
 //! Part (a), in-process: the worker's `SessionManager` (connection admission with hysteresis and
 //! per-(cluster, client IP) slots) driven by generated session histories against a multiset model.
-//! Part (b) (connection storms against a live worker) is a wire-lab check.
+//! Part (b) (connection storms against a live worker) is the wire-lab sub-check `baseline` in `c16_lab.rs`.
 
 use std::{
     collections::{BTreeMap, BTreeSet},
@@ -240,7 +240,17 @@ pub fn check(case: &Case) -> CheckResult {
 }
 
 pub fn run(args: &Args) -> i32 {
+    // child shard of the wire-lab sub-check
+    if args.shard.is_some() {
+        let st = super::c16_lab::child(args, args.cases(120, 1_200));
+        return engine::shard::child_finish(args, &st);
+    }
     let mut ev = Evidence::new(args, "exploration");
+    ev.rule(super::c16_lab::SUB, super::c16_lab::rule());
+    ev.assume("baseline: the zombie sweep is configured out of the way (600 s): sessions have to be reclaimed by their own timeouts; 'back to baseline' is observed for front timeout + 4 s after the last harness socket was closed");
+    for class in ["backend_timeout", "backend_refuses", "h2_idle_timeout", "client_abort_mid_response", "tcp_session"] {
+        ev.floor(super::c16_lab::SUB, class, 0.15);
+    }
     ev.rule(
         "sessions",
         "history of 1..80 ops on the worker's SessionManager (max_connections 1..20, global per-IP limit 0..3): Accept (admitted iff check_limits), Request(session, cluster, ip) through the per-(cluster, ip) gate exactly as the mux router and tcp sessions call it (cluster_ip_at_limit then track_cluster_ip), Close (untrack_all + decr), runtime SetMaxConnectionsPerIp (with the worker's clear-on-zero) and per-cluster overrides; model = live sessions and the slots each holds. Oracle: admission verdicts, connection count, can_accept hysteresis (refuse at max, resume below 90%), per-IP verdict == (slots taken >= limit in force) with no false refusals, everything back to zero after all sessions closed. Non-trivial: a refusal at max_connections and a per-IP refusal or a runtime limit change; distinct by case hash.",
@@ -249,5 +259,6 @@ pub fn run(args: &Args) -> i32 {
     ev.floor("sessions", "refused_at_max_connections", 0.2);
     ev.floor("sessions", "per_ip_refusal", 0.1);
     engine::run_pbt(&mut ev, args, "sessions", args.cases(60_000, 1_500_000), strategy, check);
+    engine::shard::run_sharded(&mut ev, args, super::c16_lab::SUB, 16, std::time::Duration::from_secs(args.tier.pick(600, 5400)));
     ev.finish()
 }
